@@ -188,6 +188,15 @@ pub fn mutants(rng: &mut Rng, w: &Written, chunks: &[Chunk], tier: Tier, lenient
 }
 
 fn run_one(api: usize, data: &[u8]) -> Verdict {
+    run_one_rule(api, data, usize::MAX)
+}
+
+/// Rules whose verdict cannot depend on what the decoder object saw before (illegal control
+/// byte, illegal property byte, missing bytes): for these a second call on the SAME object,
+/// straight after the call that rejected the stream and without reset(), must reject again.
+const STATE_INDEPENDENT: [usize; 5] = [0, 1, 2, 7, 8];
+
+fn run_one_rule(api: usize, data: &[u8], rule: usize) -> Verdict {
     let sel = case_hash(&[data]);
     let sink = SharedSink::varied(sel >> 8, 1 << 16);
     let obs = sut::new_obs(u64::MAX);
@@ -202,6 +211,17 @@ fn run_one(api: usize, data: &[u8]) -> Verdict {
                 let warm = [0xE0u8, 0, 0, 0, 5, 0x5D, 0, 0x20, 0x80, 0, 0, 0];
                 let _ = sut::raw_lzma2_decompress(&mut d, &warm, ReaderKind::Slice, &SharedSink::counting_only(), &sut::new_obs(u64::MAX));
                 let _ = sut::guarded(|| d.reset());
+            } else if sel % 4 == 2 && STATE_INDEPENDENT.contains(&rule) {
+                // error, then the same bytes again on the same object (R19-C17: a memo of the last
+                // property byte taken before its validation)
+                let first = sut::raw_lzma2_decompress(&mut d, data, ReaderKind::Slice, &SharedSink::counting_only(), &sut::new_obs(u64::MAX)).verdict;
+                if !matches!(first, Verdict::Err(_)) {
+                    return first;
+                }
+            } else if sel % 4 == 3 && STATE_INDEPENDENT.contains(&rule) {
+                // a valid stream, no reset, then the malformed one
+                let warm = [0xE0u8, 0, 0, 0, 5, 0x5D, 0, 0x20, 0x80, 0, 0, 0];
+                let _ = sut::raw_lzma2_decompress(&mut d, &warm, ReaderKind::Slice, &SharedSink::counting_only(), &sut::new_obs(u64::MAX));
             }
             sut::raw_lzma2_decompress(&mut d, data, if sel % 8 >= 5 { rk } else { ReaderKind::Buf(7) }, &sink, &obs).verdict
         }
@@ -257,8 +277,11 @@ fn fam_base(ctx: &CaseCtx, cov: &mut Cov) -> CaseOut {
             continue;
         }
         let api = rng.usize_below(3);
-        let v = run_one(api, &m.bytes);
+        let v = run_one_rule(api, &m.bytes, m.rule);
         out.evals += 1;
+        if api == 1 && STATE_INDEPENDENT.contains(&m.rule) {
+            cov.name(&format!("raw_decoder_object.{}", ["fresh", "valid_then_reset", "rejected_then_same_again_no_reset", "valid_no_reset"][(case_hash(&[&m.bytes]) % 4) as usize]), 1);
+        }
         cov.inc("rule", m.rule as u32);
         cov.inc("api", api as u32);
         cov.name(&format!("chunk_position.{}", m.chunk.min(4)), 1);
